@@ -71,6 +71,9 @@ class Target:
         self.log.append(rec)
         if self.script:
             status, sense = self.script.pop(0)
+            if isinstance(status, BaseException):
+                rec["status"] = "fault"
+                raise status          # fault port: the binding fails (I/O error on the transport) instead of completing the command
             rec["status"] = status
             if status != GOOD:
                 return status, sense
